@@ -370,6 +370,35 @@ class History:
         self.obj(o)
         self.snap('add')
 
+    def construct(self, objs, what):
+        """group = Cls(observers=objs) (Observer0DGroup family): a second entry point for adding members.  The new group
+        replaces the history's group; when the constructor raises, the half-built group is recovered through the parent of an
+        adopted observer (the model keeps the adoptions made before the exception, as the loop of add_observer() does)"""
+        for o in objs:
+            self.ensure(o)
+        box = []
+        r = outcome(lambda: box.append(self.im.cls(observers=list(objs))))
+        if box:
+            g = box[0]
+        else:
+            g = None
+            for o in objs:
+                p = getattr(o, 'parent', None)
+                if isinstance(p, self.im.cls) and p is not self.g and id(p) not in self.U.uids:
+                    g = p
+                    break
+            if g is None:
+                g = self.im.cls()        # nothing was adopted: the discarded group was empty
+        self.g = g
+        self.t.emit('ctor %d %s' % (self.U.uid(g), ' '.join(str(self.U.uid(o)) for o in objs)), r,
+                    self._m('ctor', what=what, n=len(objs)))
+        self.ctx.count('K:ctor:' + what + ':' + r)
+        self.ctx.case(key=('K', self.im.name, 'ctor', what, len(objs), r))
+        for o in objs:
+            self.obj(o)
+        self.snap('ctor')
+        self.length()
+
     def obj(self, o):
         self.t.emit('obj %d %s' % (self.U.uid(o), ','.join(self.im.mattrs)), self.im.show(self.g, o), self._m('obj'))
 
@@ -726,6 +755,21 @@ def membership(ctx, im, t):
                 h.reparent(ms[-1], None, 'None')
                 h.setm(ml, list(reversed(ms)), 'T' if 'tuple' in (h.im.desc[ml]['setter'] or {}).get('kinds', ['tuple']) else 'L')
                 h.setm(ml, ms, 'L')
+        # the constructor as a second entry point (Observer0DGroup family): right types, a wrong object in front / in the
+        # middle / at the end, duplicates, nothing; then the retrieval operations on what it left behind
+        if im.c['family'] == 'observer0D':
+            wrong = make_member(im.wrong_kinds[0])
+            late = make_member(im.member_kind, 'ctor-late')
+            for what, objs in (('members', list(ms)), ('reversed+new', list(reversed(ms)) + [late]), ('empty', []),
+                               ('wrong-first', [wrong] + ms), ('wrong-middle', ms[:1] + [wrong] + ms[1:]),
+                               ('wrong-last', ms + [make_member(im.wrong_kinds[-1])]), ('duplicate', ms[:1] + ms),
+                               ('members-again', list(ms))):
+                h.construct(objs, what)
+                h.item(0)
+                h.item(-1)
+                h.item(slice(None, None, -1))
+                for ml in im.mlist:
+                    h.read(ml)
         if im.bcast:
             h.read(im.bcast[0])
         h.observe()
@@ -1782,7 +1826,7 @@ def run(ctx, only=None):
                     'and by interpreting its table against the real classes)',
                     'raysect observers are parameters of the model: acceptance / stored content of a value is probed on a lone observer '
                     'of the member type (Obj.rej, Obj.stored)',
-                    'hand-transcribed: add_observer / add_foil_detector / __getitem__ / __len__ / observe (tied by K only)']
+                    'hand-transcribed: add_observer / add_foil_detector / __getitem__ / __len__ / observe / the constructor loop of add_observer (tied by K; the constructor is proved to agree with add_observer)']
     ctx.assumptions += ['values are chosen so that a member accepts or rejects them independently of its other attributes '
                         '(min/max wavelength and spectral rays/bins kept in disjoint ranges; axis-aligned directions)',
                         'element-wise theorems assume distinct members (the same observer added twice is modelled and compared, but "member i '
